@@ -15,7 +15,10 @@
    each marked cipher class (chacha20, aes-256, aes-192), capacity-0 replay cache; every response salt must be new and
    carry the mark; 300 (1000) recordings per class are reflected (whole / truncated / extended / own stream) while more
    handshakes run: all must be refused as ERR_REPLAY_SERVER.
-5. freshness at scale: response salts of many real connections, pairwise distinct (TLC: every token is the next one).
+5. fault injection (`fault`): crypto/rand.Reader is replaced for a bounded window by a reader that fails N times while
+   the response salt of a genuine connection is drawn (all four classes): either no response stream is produced
+   (EntropyFails) or the salt is new and marked like any other.
+6. freshness at scale: response salts of many real connections, pairwise distinct (TLC: every token is the next one).
 """
 import json, os
 import vlib
@@ -27,6 +30,8 @@ ASSUME = [
     "AES-128 (16-byte salts) is outside the recognisability / reflection clauses by the property's wording; its salts are "
     "only checked for freshness",
     "the mark is verified with an independent RFC 5869 HKDF-SHA1 + HMAC-SHA1 implementation in the harness",
+    "entropy faults are injected by substituting crypto/rand.Reader in the driver process (go1.23: rand.Read reads through "
+    "that variable); other sources of randomness are not covered",
     "the replay cache is abstracted to 'remembers every handshake of the scenario' when on (its window is C07)",
     "TLC 1.8.0 and the hand transcription of tcp.go:119-157 / server_salt.go / cipher_list.go:38-53 into TcpAuth.tla",
 ]
@@ -36,6 +41,8 @@ KEYS = {   # must equal KeysQ / KeysX of spec/TcpAuthMC.tla (checked against the
           dict(name=5, cls=1, sec=1)],
     # driver `storm`: one key per cipher class with marked salts
     "S3": [dict(name=1, cls=1, sec=1), dict(name=2, cls=2, sec=2), dict(name=3, cls=3, sec=3)],
+    # driver `fault`: one key per cipher class
+    "S4": [dict(name=1, cls=1, sec=1), dict(name=2, cls=2, sec=2), dict(name=3, cls=3, sec=3), dict(name=4, cls=4, sec=4)],
     "X": [dict(name=1, cls=4, sec=1), dict(name=2, cls=3, sec=1), dict(name=3, cls=2, sec=1), dict(name=4, cls=1, sec=1)],
 }
 
@@ -108,6 +115,25 @@ def storm(ctx):
     ctx.cov["distinct_nontrivial"] += 3
 
 
+def fault(ctx):
+    """Fault injection: crypto/rand.Reader fails 1, 2, 3, 4, 7 or 1000 times while the response salt of a genuine
+    connection is drawn (all four cipher classes, several connections per case).  Allowed outcomes (EntropyFails /
+    FirstWrite of TcpAuth.tla): no response stream, or a response whose salt is new - never a salt completed without
+    fresh randomness (which repeats from connection to connection)."""
+    drv = ta_common.driver(ctx)
+    k = 4 if ctx.quick else 25
+    tf = os.path.join(ctx.scratch, "fault.ndjson")
+    info, _ = ta_common.run_driver(ctx, [drv, "fault", "-n", str(k), "-out", tf, "-seed", str(ctx.seed)], "fault", timeout=600)
+    if not info.get("injected_failures"):
+        raise vlib.Inconclusive("fault stage: no entropy failure was injected (crypto/rand.Reader not used by this toolchain?)")
+    ta_common.validate_ta(ctx, tf, KEYS["S4"], "fault injection: crypto/rand fails while the salt is drawn",
+                          ta_common.C08_KINDS)
+    ctx.cov["fault_injection"] = info
+    ctx.cov["response_salts"] = ctx.cov.get("response_salts", 0) + info.get("responses", 0)
+    ctx.cov["evaluations"] += 1
+    ctx.cov["distinct_nontrivial"] += 1
+
+
 def run(ctx):
     exhaustive(ctx)
     n = 120 if ctx.quick else 1200
@@ -123,6 +149,7 @@ def run(ctx):
             ctx.sample({"behaviour": behs[0]})
             ctx.sample({"trace_head": rows[:14]})
     storm(ctx)
+    fault(ctx)
     # freshness at scale
     drv = ta_common.driver(ctx)
     nconn = 3000 if ctx.quick else 100000
